@@ -7,8 +7,15 @@ Sub-checks
                     dict<->scalar flips/path collisions), unicode + separator + backslash keys
   codec_atheris     optional: libFuzzer/atheris byte target (fuzz/c07_delta_fuzz.py) decoding bytes into such a pair
   disk              write_snapshot_auto full then delta in a sandbox; baseline present / missing (writer and reader
-                    side) / corrupt (truncation at every structural offset, byte blobs); the three readers
-                    read_snapshot(path=), read_snapshot(root, etag_to=) and load_latest_snapshot
+                    side) / corrupt (truncation at every structural offset, byte blobs, a delta file under the
+                    baseline's name); the readers read_snapshot(path=), read_snapshot(root, etag_to=),
+                    io.read_snapshot(root=, etag_to=, baseline_dir=) and load_latest_snapshot (three ctx/state shapes,
+                    engine.snapshot and engine.apply entry points), str and os.PathLike arguments, the baseline kept
+                    in another directory (baseline_dir=), chains (delta requested on an etag that exists only as a
+                    delta; several deltas off one baseline), the same file names rewritten in place, lookups made
+                    before the files exist, directory clutter (snapshots of near-miss etags, stray temp/backup files,
+                    orphan sidecars, bodies without sidecars), awkward etags (glob metacharacters, one a prefix of the
+                    other, '9' vs '10', file-name parts, unicode twins), payloads beyond 64 KiB / 1 MiB
 
 Oracle (codec): type-exact canonical JSON text of apply_delta(base, compute_delta(base, cur)) equals that of cur; the
 same after the delta went through json.dumps/json.loads; neither call mutates an argument.
@@ -34,8 +41,12 @@ LEVEL = "exploration"
 RULE = ("codec_exhaustive: all ordered pairs (base, cur) of the stated universe (objects with <=1 key over the full "
         "key/value alphabets, plus 2- and 3-key objects over reduced alphabets), distinct by construction. "
         "codec_random/atheris: base = generated recursive JSON object, cur = per-key mutation of it (keep/delete/twist "
-        "type/replace/flip dict<->scalar/recurse/add) or, 1 in 10, independent. disk: snapshot-shaped payload pair "
-        "keyed by node/edge ids with dots and arrows, one scenario each. NON-TRIVIAL (codec) = the reference diff has "
+        "type/replace/flip dict<->scalar/recurse into dicts AND lists (append/pop/reorder/edit one element)/list<->"
+        "index-keyed dict/stringify/add/confusable sibling key (unicode form, case, separator characters)) or, 1 in 10, "
+        "independent; 1 in 8 pairs is buried under a chain of 3..14 keys; base {} is also passed as None. "
+        "disk: snapshot-shaped payload pair keyed by node/edge ids with dots and arrows, one scenario each, with "
+        "independently drawn etag pair, directory clutter, argument types, loader shape, rewrite/probe/repeat flags. "
+        "NON-TRIVIAL (codec) = the reference diff has "
         ">=1 add AND >=1 mod AND >=1 del, or a diff path has a key that is empty / contains '.' / is non-ASCII, or a "
         "dict<->non-dict replacement, or a change that only Python-equal-but-JSON-different values reveal (1/true/1.0). "
         "NON-TRIVIAL (disk) = a delta file was really written and is non-empty. Distinct = digest of the pair/case.")
@@ -46,6 +57,11 @@ ASSUMPTIONS = [
     "a corrupt baseline is a truncation or a byte blob; a baseline replaced by a *different valid* full snapshot is "
     "not detectable without a digest in the header and is not generated",
     "raising from a reader/writer on a missing or corrupt baseline counts as 'reports absence'",
+    "etags are non-empty strings without '/' or NUL (they become file names); everything else is legal in them",
+    "files in the snapshot directory that are not named snapshot-<etag>.{full,delta}.json[.zst] for the etag asked for "
+    "(other etags, temp/backup leftovers, sidecars) never take part in a read or a write; a body needs no sidecar",
+    "a baseline file whose header says mode 'full' and whose body is null/[] (falsy) or whose header has no mode is not "
+    "generated as a corruption: a reader may take it for an empty state",
 ]
 
 FID_DOT = "delta-dotted-keys"
@@ -141,13 +157,52 @@ def ref_diff(base, cur, prefix=()):
     return adds, mods, dels
 
 
+LINESEPS = "\n\r\x0b\x0c\x1c\x1d\x1e\x85\u2028\u2029"
+
+
+import functools
+
+
+@functools.lru_cache(maxsize=4096)
+def _fold(k):
+    import unicodedata
+    return unicodedata.normalize("NFKC", k).casefold().strip().replace("\\", "").replace(".", "").replace("\x00", "").replace("\u200b", "")
+
+
+def _has_twin_keys(x, depth=0):
+    """Some dict holds two different keys that a normalising / case-folding / separator-stripping codec would merge."""
+    if depth > 40:
+        return False
+    if type(x) is dict:
+        if len({_fold(k) for k in x}) < len(x):
+            return True
+        return any(_has_twin_keys(v, depth + 1) for v in x.values())
+    if type(x) is list:
+        return any(_has_twin_keys(v, depth + 1) for v in x)
+    return False
+
+
+def key_twins(k):
+    """Keys that differ from k only by what a sloppy path codec might ignore (unicode form, case, separators)."""
+    import unicodedata
+    out = [unicodedata.normalize("NFD", k), unicodedata.normalize("NFC", k), unicodedata.normalize("NFKC", k),
+           k.upper(), k.lower(), k + " ", " " + k, k + ".", "." + k, k + "\\", "\\" + k, k.replace(".", "\\."),
+           k.replace("\\.", "."), k.replace(".", "\\\\."), k.replace(".", ""), k + "\x00", k + "\u200b", k + k]
+    seen, res = {k}, []
+    for t in out:
+        if t not in seen:
+            seen.add(t)
+            res.append(t)
+    return res
+
+
 def _get(obj, path):
     for k in path:
         obj = obj[k]
     return obj
 
 
-def pair_labels(base, cur):
+def pair_labels(base, cur, twin=None):
     """(labels, nontrivial) for a codec pair."""
     adds, mods, dels = ref_diff(base, cur)
     labels = []
@@ -175,9 +230,31 @@ def pair_labels(base, cur):
         awkward = True
     if any("\\" in s for s in segs):
         labels.append("key:backslash")
+    if any(len(s) > 64 for s in segs):
+        labels.append("key:long")
+    if any(not s.isprintable() and any(ch in s for ch in LINESEPS) for s in segs):
+        labels.append("key:linesep")
+    if (_has_twin_keys(base) or _has_twin_keys(cur)) if twin is None else twin:
+        labels.append("keys:confusable-siblings")
+    dmax = max((len(p) for p in adds + mods + dels), default=0)
+    if dmax >= 6:
+        labels.append("depth>=6")
+    if dmax >= 10:
+        labels.append("depth>=10")
     flip = typeonly = False
     for p in mods:
         bv, cv = _get(base, p), _get(cur, p)
+        if type(bv) is list and type(cv) is list:
+            if len(bv) != len(cv):
+                labels.append("list:len-change")
+            elif sorted(map(canon, bv)) == sorted(map(canon, cv)):
+                labels.append("list:reordered")
+            else:
+                labels.append("list:elem-changed")
+            if any(type(e) is dict for e in bv + cv):
+                labels.append("list:of-dicts")
+        elif (type(bv) is list and type(cv) is dict) or (type(bv) is dict and type(cv) is list):
+            labels.append("list<->dict")
         if (type(bv) is dict) != (type(cv) is dict):
             flip = True
         if bv == cv:  # Python-equal, JSON-different
@@ -238,6 +315,22 @@ def codec_failures(base, cur, cb=None, cc=None):
         return [("mutates-input", f"apply_delta mutated base or the (JSON round-tripped) delta: base {cb} -> {try_canon(b)}", None)]
     if cg2 != cc:
         fails.append(("roundtrip-json", f"after json.dumps/loads of the delta: got {cg2} but cur = {cc}; delta = {cd}", got2))
+    if cb == "{}" and not fails:
+        # "compute_delta(None, X) yields adds for all keys in X; apply_delta handles None/{} bases" (module docstring):
+        # an absent base is the empty object, on either side of the round trip
+        for bn, an in ((None, None), (None, {}), ({}, None)):
+            try:
+                dn = compute_delta(bn, c)
+                gn = apply_delta(an, json.loads(json.dumps(dn, allow_nan=False)))
+            except Exception as e:
+                fails.append(("raises", f"compute_delta({bn!r}, cur) / apply_delta({an!r}, .) raised {type(e).__name__}: {e}", None))
+                break
+            if try_canon(c) != cc:
+                return [("mutates-input", f"compute_delta({bn!r}, cur) mutated cur {cc} -> {try_canon(c)}", None)]
+            if try_canon(gn) != cc:
+                fails.append(("roundtrip", f"apply_delta({an!r}, compute_delta({bn!r}, cur)) = {try_canon(gn)} but cur = {cc}; "
+                                           f"delta = {try_canon(dn)}", gn))
+                break
     return fails
 
 
@@ -358,22 +451,22 @@ def replay_pair(case):
 # (a1) exhaustive universe
 # =====================================================================================================
 
-KEYS = ["", "a", "b", "a.b", ".", "é"]
+KEYS = ["", "a", "b", "a.b", ".", "é", "\\"]
 LEAVES = [0, 1, 1.0, True, None, "s", [], [1], {}]
 
 
 def universe(tier):
     inner = lambda iks, ils: [{ik: il} for ik in iks for il in ils]
     if tier == "quick":
-        v1 = LEAVES + inner(["b", "", "a.b"], [1, True, {}]) + [{"b": 1, "": 1}]
+        v1 = LEAVES + inner(["b", "", "a.b", "\\"], [1, True, {}]) + [{"b": 1, "": 1}]
         k2, v2 = ["", "a", "b", "a.b"], [1, 1.0, True, [1], {}, {"b": 1}, {"b": True}, {"": 1}]
         k3, v3 = [], []
     else:
-        v1 = LEAVES + inner(["b", "", "a.b", "."], LEAVES) + [{"b": 1, "": 1}, {"b": {"": 1}}, {"a.b": {"b": 1}}]
-        k2, v2 = KEYS, [0, 1, 1.0, True, None, [1], {}, {"b": 1}, {"b": True}, {"": 1}, {"a.b": 1}, {"b": {}}]
+        v1 = LEAVES + inner(["b", "", "a.b", ".", "\\", "a\\"], LEAVES) + [{"b": 1, "": 1}, {"b": {"": 1}}, {"a.b": {"b": 1}}]
+        k2, v2 = KEYS[:6], [0, 1, 1.0, True, None, [1], {}, {"b": 1}, {"b": True}, {"": 1}, {"a.b": 1}, {"b": {}}]
         k3, v3 = ["", "a", "a.b", "b"], [1, True, {}, {"b": 1}, {"": 1}]
     objs = [{}]
-    for k in KEYS:
+    for k in (KEYS[:6] if tier == "quick" else KEYS):  # the backslash key as top-level key: thorough tier only
         for v in v1:
             objs.append({k: v})
     for i in range(len(k2)):
@@ -394,6 +487,7 @@ def universe(tier):
 def sub_codec_exhaustive(rec, seed, shard, nshards, tier="quick"):
     objs = universe(tier)
     canons = [canon(o) for o in objs]
+    twins = [_has_twin_keys(o) for o in objs]
     if len(set(canons)) != len(canons):
         raise RuntimeError("universe has duplicates")
     n = len(objs)
@@ -414,7 +508,7 @@ def sub_codec_exhaustive(rec, seed, shard, nshards, tier="quick"):
                 if v.sig not in seen_sigs:
                     seen_sigs.add(v.sig)
                     rec.violation(v.message, v.case, v.sig)
-            labels, nt = pair_labels(base, cur)
+            labels, nt = pair_labels(base, cur, twins[i] or twins[j])
             rec.case(nontrivial=nt, dig=None, labels=labels,
                      sample={"base": base, "cur": cur} if nt and (idx // nshards) % 9973 == 17 else None)
 
@@ -424,8 +518,61 @@ def sub_codec_exhaustive(rec, seed, shard, nshards, tier="quick"):
 # =====================================================================================================
 
 SPECIAL_KEYS = ["", ".", "a", "b", "a.b", "a.", ".a", "..", "é", "é.é", "_adds", "_mods", "_dels",
-                "n1→n2", "n.1→n.2", "\\", "a\\.b", "\\.", "a\\", "a b", " ", "0"]
-ACTIONS = ["keep", "keep", "del", "twist", "replace", "flip", "recurse", "recurse"]
+                "n1→n2", "n.1→n.2", "\\", "a\\.b", "\\.", "a\\", "a b", "\u2028", "0",
+                # more line-boundary characters of str.splitlines (the file format is line based), quote, slash, NUL
+                " ", "a\x85b", "\n", "a\r\nb", "\x1c", "\u2029", "\"", "/", "\x00",
+                # unicode-form / case twins of keys above, and keys a separator-stripping codec would merge
+                "e\u0301", "A", "\u212b", "\u00c5", "ab", "a.b.c", "a\\\\.b",
+                "k" * 300, "k" * 299 + ".", "\u00e9." * 40, "\U0001f600", "1", "00", "-1",
+                # separator / escape spellings of other path notations (JSON pointer, JSONPath, unit separator, ...)
+                "~", "~0", "~1", "a/b", "a~1b", "\x1f", "a|b", "a:b", "[0]", "a[0]", "$", "*", "%2E", "a,b"]
+SEP_CHARS = [".", ".", "\\", "/", "~", "|", ":", "\x1f", "\x00", "\u2192", ",", "#", "[", "\n", " "]
+ACTIONS = ["keep", "keep", "del", "twist", "replace", "flip", "recurse", "recurse", "recurse", "listdict", "stringify"]
+LIST_ACTIONS = ["append", "pop", "drop0", "reverse", "rotate", "elem", "elem", "dup", "insert0", "twist-all", "sort"]
+
+
+def list_as_dict(v):
+    """[x, y] <-> {"0": x, "1": y}: what an index-path encoding of lists would confuse."""
+    if type(v) is list:
+        return {str(i): copy.deepcopy(e) for i, e in enumerate(v)}
+    if type(v) is dict and v and sorted(v) == sorted(str(i) for i in range(len(v))):
+        return [copy.deepcopy(v[str(i)]) for i in range(len(v))]
+    return None
+
+
+def mutate_list(draw, st, keys, leaf, value, lst, depth):
+    """A constructed edit of a list value: lists are atomic for the codec, so ANY difference (length, order, one element,
+    one leaf inside a dict element) must come back exactly."""
+    out = copy.deepcopy(lst)
+    act = draw(st.sampled_from(LIST_ACTIONS))
+    if act == "append":
+        out.append(draw(value))
+    elif act == "pop" and out:
+        out.pop()
+    elif act == "drop0" and out:
+        out.pop(0)
+    elif act == "reverse":
+        out.reverse()
+    elif act == "rotate" and out:
+        out = out[1:] + out[:1]
+    elif act == "dup" and out:
+        out.append(copy.deepcopy(out[0]))
+    elif act == "insert0":
+        out.insert(0, draw(leaf))
+    elif act == "twist-all":
+        out = [twist(e) for e in out]
+    elif act == "sort":
+        out.sort(key=canon)
+    elif act == "elem" and out:
+        i = draw(st.integers(0, len(out) - 1))
+        e = out[i]
+        if type(e) is dict and depth < 4:
+            out[i] = mutate_dict(draw, st, keys, leaf, value, e, depth + 1)
+        elif type(e) is list and depth < 4:
+            out[i] = mutate_list(draw, st, keys, leaf, value, e, depth + 1)
+        else:
+            out[i] = twist(e)
+    return out
 
 
 def _strategies():
@@ -436,8 +583,10 @@ def _strategies():
         st.none(), st.booleans(), st.integers(-2, 2), st.sampled_from([2 ** 53 + 1, -(2 ** 63), 10 ** 20]),
         st.sampled_from([0.0, -0.0, 1.0, -1.0, 0.1, 1e16, 5e-324, 1.7976931348623157e308, 2.5]),
         st.floats(allow_nan=False, allow_infinity=False),
-        st.sampled_from(["", "s", "a.b", "é", "true", "1"]), st.text(max_size=3))
-    value = st.recursive(leaf, lambda ch: st.one_of(st.lists(ch, max_size=3), st.dictionaries(keys, ch, max_size=4)),
+        st.sampled_from(["", "s", "a.b", "é", "true", "1", "l\u2028s", "n\x85l", "a\nb", "\u2029", "\x00", "s" * 200]),
+        st.text(max_size=3))
+    value = st.recursive(leaf, lambda ch: st.one_of(st.lists(ch, max_size=3), st.dictionaries(keys, ch, max_size=4),
+                                                    st.lists(st.dictionaries(keys, ch, max_size=2), min_size=1, max_size=3)),
                          max_leaves=10)
     obj = st.dictionaries(keys, value, max_size=5)
     return st, keys, leaf, value, obj
@@ -453,7 +602,7 @@ def twist(v):
         return False
     t = type(v)
     if t is int:
-        f = float(v) if abs(v) < 2 ** 53 else None
+        f = float(v) if abs(v) < 2 ** 53 or (abs(v) < 2 ** 1000 and int(float(v)) == v) else None
         if v == 1:
             return 1.0
         return f if f is not None else v + 1
@@ -491,15 +640,29 @@ def mutate_dict(draw, st, keys, leaf, value, d, depth):
             out[k] = draw(leaf) if type(v) is dict else draw(st.dictionaries(keys, leaf, max_size=2))
         elif act == "recurse" and type(v) is dict and depth < 4:
             out[k] = mutate_dict(draw, st, keys, leaf, value, v, depth + 1)
+        elif act == "recurse" and type(v) is list and depth < 4:
+            out[k] = mutate_list(draw, st, keys, leaf, value, v, depth + 1)
+        elif act == "listdict" and list_as_dict(v) is not None:
+            out[k] = list_as_dict(v)
+        elif act == "stringify" and type(v) is not str:
+            out[k] = str(v) if draw(st.booleans()) else json.dumps(v)
         else:
             out[k] = copy.deepcopy(v)
     for _ in range(draw(st.integers(0, 2))):
         out[draw(keys)] = draw(value)
+    # confusable sibling: next to a key of base, a key that differs only in unicode form / case / separator characters
+    if d and draw(st.integers(0, 3)) == 0:
+        k = draw(st.sampled_from(sorted(d)))
+        tw = key_twins(k)
+        if tw:
+            t = draw(st.sampled_from(tw))
+            how = draw(st.sampled_from(["same", "twist", "fresh"]))
+            out[t] = copy.deepcopy(d[k]) if how == "same" else twist(d[k]) if how == "twist" else draw(value)
     # path collision: a sibling key spelling the path of a nested one
     if depth == 0 and draw(st.integers(0, 3)) == 0:
         for k, v in d.items():
             if type(v) is dict and v:
-                out[k + "." + sorted(v)[0]] = draw(leaf)
+                out[k + draw(st.sampled_from(SEP_CHARS)) + sorted(v)[0]] = draw(leaf)
                 break
     return out
 
@@ -514,6 +677,20 @@ def pair_strategy():
             cur = draw(obj)
         else:
             cur = mutate_dict(draw, st, keys, leaf, value, base, 0)
+        if draw(st.integers(0, 7)) == 0:
+            # deep chain: the same pair, buried under a path of (awkward) keys, with a sibling here and there
+            for k in draw(st.lists(keys, min_size=3, max_size=14)):
+                nb, nc = {k: base}, {k: cur}
+                sib = draw(st.integers(0, 5))
+                if sib == 0:
+                    nb[draw(st.sampled_from(key_twins(k)))] = draw(leaf)
+                elif sib == 1:
+                    nc[draw(keys)] = draw(leaf)
+                elif sib == 2:
+                    k2, v = draw(keys), draw(leaf)
+                    nb.setdefault(k2, v)
+                    nc.setdefault(k2, twist(v))
+                base, cur = nb, nc
         return {"base": base, "cur": cur}
 
     return pairs()
@@ -553,7 +730,8 @@ class ByteReader:
         return len(self.d) - self.i
 
 
-F_KEYS = ["a", "b", "", "a.b", ".", "é", "a.", "\\", "a\\.b", "_adds", "n1→n2", "c"]
+F_KEYS = ["a", "b", "", "a.b", ".", "é", "a.", "\\", "a\\.b", "_adds", "n1→n2", "c",
+          "\u2028", "e\u0301", "A", "a\\", "\n", "k" * 80, "~1", "/", "ab", "0", "1"]
 F_LEAVES = [0, 1, 1.0, True, False, None, "s", "", -0.0, 0.0, [], [1], [True], {}, 2]
 
 
@@ -588,6 +766,22 @@ def _f_mutate(r: ByteReader, d, depth):
             out[k] = F_LEAVES[r.pick(len(F_LEAVES))] if type(v) is dict else {F_KEYS[r.pick(len(F_KEYS))]: 1}
         elif a in (4, 5) and type(v) is dict and depth < 3:
             out[k] = _f_mutate(r, v, depth + 1)
+        elif a in (4, 5) and type(v) is list:
+            w = copy.deepcopy(v)
+            b = r.pick(6)
+            if b == 0:
+                w.append(_f_value(r, depth + 1))
+            elif b == 1 and w:
+                w.pop()
+            elif b == 2:
+                w.reverse()
+            elif b == 3 and w:
+                w = w[1:] + w[:1]
+            elif b == 4 and w:
+                w[-1] = _f_mutate(r, w[-1], depth + 1) if type(w[-1]) is dict and depth < 3 else twist(w[-1])
+            else:
+                w = list_as_dict(w)
+            out[k] = w
         else:
             out[k] = copy.deepcopy(v)
     for _ in range(r.pick(3)):
@@ -740,10 +934,26 @@ def _tmp_base():
 
 
 IDS = ["n1", "n2", "n.1", "a.b", "a", "b", "", "é", "a→b", "x.y→z", "n:1", ".", "g.1", "n.1.x"]
-SCENARIOS = ["present", "present", "present", "writer_missing", "writer_mismatch", "reader_missing", "reader_missing",
-             "reader_missing_sibling", "reader_missing_sibling_gone", "corrupt", "corrupt"]
+# (Hypothesis favours the front of a sampled_from list: the order interleaves the families, 'present' may be over-drawn)
+SCENARIOS = ["present", "chain", "present_bdir", "reader_missing", "corrupt", "writer_missing", "reader_missing_sibling_gone",
+             "present", "writer_mismatch", "reader_missing_sibling", "chain", "writer_only_delta", "present_sibling",
+             "corrupt", "reader_missing", "present", "present_bdir", "reader_missing_sibling_gone"]
+# [etag_from, etag_to]: plain, dotted, ordering traps ('9' < '10' numerically only), one a prefix/extension of the other
+# or of the file-name parts ('.full', '.delta', '.json'), glob metacharacters, blanks, unicode twins, case twins, long
+ETAG_PAIRS = [["A", "B"], ["1", "2"], ["aaaa", "bbbb"], ["e.1", "e.2"], ["2", "1"],
+              ["9", "10"], ["10", "9"], ["1", "10"], ["10", "1"], ["x", "x.full"], ["x.full", "x"], ["x.delta", "x.full"],
+              ["x.full.json", "x"], ["a*", "ab"], ["ab", "a*"], ["a?", "a*"], ["[ab]", "a"], ["b", "[ab]"], ["[!a]", "[a]"],
+              ["v 1", "v 2"], [" 1", "1 "], ["\u00e9", "e\u0301"], ["A", "a"], ["-", "--"], ["a.json", "b.json"],
+              ["0" * 100, "0" * 99 + "1"], ["{e}", "$e"], ["a%b", "a#b"], ["..", "..."], ["l\u2028", "l\x85"], ["\u212b", "\u00c5"],
+              ["snapshot-1", "snapshot-2"], ["1.meta", "1"]]
 SPECIAL_BLOBS = ["", "7b7d", "30", "31", "6e756c6c", "5b5d", "2222", "7b", "0a", "0a0a", "7b7d0a", "ff", "66616c7365",
-                 "7b226d6f6465223a2266756c6c227d", "7b226d6f6465223a2266756c6c227d0a"]
+                 "7b226d6f6465223a2266756c6c227d", "7b226d6f6465223a2266756c6c227d0a"] + [
+    # header line + body that is NOT a full snapshot with an object body: wrong/absent mode, non-object bodies
+    b.encode("utf-8").hex() for b in (
+        # (falsy bodies null / [] and headers without a mode are left out: a reader may take them for an empty state)
+        '{"mode":"full"}\n1', '{"mode":"full"}\n"s"', '{"mode":"full"}\n[{}]',
+        '{"mode":"delta"}\n{}', '{"mode":"delta","delta_of":"x","etag_to":"y"}\n{"_adds":{"k":1},"_mods":{},"_dels":[]}',
+        '[]\n{}', '"full"\n{}', '{"mode":"full"}\n{}x', '{"mode":"full"}\n{}\n{}')]
 
 
 def disk_strategy():
@@ -839,12 +1049,53 @@ def disk_strategy():
         else:
             p1 = mutate_dict(draw, st, keys, leaf, value, {k: v for k, v in p0.items() if k != "gel"}, 0)
             p1["gel"] = mutate_gel(draw, p0["gel"])
-        return {"p0": p0, "p1": p1, "scenario": draw(st.sampled_from(SCENARIOS)),
-                "etags": draw(st.sampled_from([["A", "B"], ["1", "2"], ["aaaa", "bbbb"], ["e.1", "e.2"], ["2", "1"]])),
+        if draw(st.integers(0, 11)) == 0:
+            p1 = {}  # everything deleted: the reconstructed state is the empty object
+        case = {"p0": p0, "p1": p1, "scenario": draw(st.sampled_from(SCENARIOS)),
+                "etags": draw(st.one_of(st.sampled_from(ETAG_PAIRS[:5]), st.sampled_from(ETAG_PAIRS), st.sampled_from(ETAG_PAIRS[5:]))),
                 "blobs": draw(st.lists(st.one_of(st.sampled_from(SPECIAL_BLOBS), st.binary(max_size=48).map(bytes.hex)),
                                        max_size=4, unique=True))}
+        for q in (case["p0"], case["p1"]):
+            _tame(q)
+        # optional dimensions (absent in cases saved before they existed)
+        case["clutter"] = draw(st.lists(st.sampled_from(CLUTTER), max_size=3, unique=True))
+        case["pathlike"] = draw(st.booleans())
+        case["shape"] = draw(st.integers(0, 2))
+        case["rounds"] = draw(st.sampled_from([1, 1, 2]))
+        case["probe_first"] = draw(st.booleans())
+        big = draw(st.sampled_from([0] * 12 + [70_000, 1_200_000]))
+        if big and type(case["p1"]) is dict:
+            # payloads beyond the usual I/O buffer sizes (64 KiB, 1 MiB); the bulk is shared, a little of it changes
+            case["big"] = big
+        if draw(st.integers(0, 3)) == 0:
+            case["pre"] = draw(st.one_of(payload(), st.just({}), st.just(copy.deepcopy(p1))))
+        if case["scenario"] == "chain":
+            q = {k: v for k, v in p1.items() if k != "gel"}
+            p2 = mutate_dict(draw, st, keys, leaf, value, q, 0)
+            p3 = mutate_dict(draw, st, keys, leaf, value, {k: v for k, v in p0.items() if k != "gel"}, 0)
+            if "gel" in p1 and type(p1["gel"]) is dict and "edges" in p1["gel"] and draw(st.booleans()):
+                p2["gel"] = copy.deepcopy(p1["gel"])
+            if "gel" in p0 and draw(st.booleans()):
+                p3["gel"] = mutate_gel(draw, p0["gel"])
+            case["p2"], case["p3"] = _tame(p2), _tame(p3)
+            case["chain_sibling"] = draw(st.booleans())
+        return case
 
     return cases()
+
+
+def _tame(p):
+    """The loader keys store weights by str(target_kind), str(target_id), str(attr): for a container that text follows
+    the key order of the object, which is no part of a JSON value.  Generated weight records keep scalar id fields."""
+    st_ = p.get("store") if type(p) is dict else None
+    ws = st_.get("weights") if type(st_) is dict else None
+    if type(ws) is list:
+        for it in ws:
+            if type(it) is dict:
+                for f in ("target_kind", "target_id", "attr"):
+                    if type(it.get(f)) in (dict, list):
+                        it[f] = canon(it[f])
+    return p
 
 
 class StoreDouble:
@@ -853,20 +1104,37 @@ class StoreDouble:
         self.imported = None
 
     def import_state(self, s):
-        self.imported = copy.deepcopy(s)
+        self.imported = s  # a store may keep what it is handed (observe_load canonicalises it before anyone edits it)
 
 
-def observe_load(root):
-    """What load_latest_snapshot builds from directory `root` (fresh state double). Path is not part of it."""
-    from clematis.engine.snapshot import load_latest_snapshot
-
+def observe_load(root, shape=0):
+    """What load_latest_snapshot builds from directory `root` (fresh state double). Path is not part of it.
+    shape 0: ctx.cfg is a dict, state is a dict (engine.snapshot entry point); 1: ctx.cfg is a namespace tree, state is
+    an object, entered through the engine.apply alias the orchestrator's boot hook uses; 2: only ctx.config is set."""
     store = StoreDouble()
-    state = {"store": store, "version_etag": "init"}
-    ctx = SimpleNamespace(cfg={"t4": {"snapshot_dir": root}}, config=None, agent_id="ag")
+    root = os.fspath(root)
+    if shape == 1:
+        from clematis.engine.apply import load_latest_snapshot
+        state = SimpleNamespace(store=store, version_etag="init")
+        ctx = SimpleNamespace(cfg=SimpleNamespace(t4=SimpleNamespace(snapshot_dir=root)), agent_id="ag")
+        get = lambda k: getattr(state, k, None)
+    else:
+        from clematis.engine.snapshot import load_latest_snapshot
+        state = {"store": store, "version_etag": "init"}
+        if shape == 2:
+            ctx = SimpleNamespace(config={"t4": {"snapshot_dir": root}}, agent_id="ag")
+        else:
+            ctx = SimpleNamespace(cfg={"t4": {"snapshot_dir": root}}, config=None, agent_id="ag")
+        get = state.get
     res = load_latest_snapshot(ctx, state)
-    return {"loaded": res.get("loaded"), "ver_ret": res.get("version_etag"), "ver_state": state.get("version_etag"),
+    ver_ret, ver_state = res.get("version_etag"), get("version_etag")
+    if type(ver_ret) in (dict, list) and ver_state == str(ver_ret):
+        # the loader stores str(version): for a container that text follows the key ORDER of the object, which is not
+        # part of a JSON value (a reconstructed object and a parsed one may order their keys differently)
+        ver_state = "str-of:" + try_canon(ver_ret)
+    return {"loaded": res.get("loaded"), "ver_ret": ver_ret, "ver_state": ver_state,
             "w": sorted([list(k), v] for k, v in store.w.items()), "imported": store.imported,
-            "graph": state.get("graph"), "gel": state.get("gel"),
+            "graph": get("graph"), "gel": get("gel"),
             "file": os.path.basename(res["path"]) if res.get("path") else None}
 
 
@@ -969,7 +1237,43 @@ def check_disk(case, rec=None):
     return total
 
 
+CLUTTER = ["near-etags", "strays", "orphan-sidecars", "no-sidecars"]
+PRESENT_LIKE = ("present", "present_sibling", "present_bdir")
+
+
+def _near_etags(ea, eb, taken):
+    """Etags of distractor snapshots: extensions / prefixes / case twins of the real ones, names that spell file-name
+    parts, and (for etags holding glob metacharacters) plain names the pattern would match."""
+    import fnmatch
+    pool = ["a", "b", "ab", "aa", "abc", "c", "1", "10", "0", "x", "e", "-"]
+    out = []
+    for e in (ea, eb):
+        cands = [c for c in pool if c != e and fnmatch.fnmatchcase(c, e)][:2]
+        cands += [e + ".full", e[:-1], e + "0", e + ".delta", e.swapcase(), e + ".full.json", "0" + e, e + " ", e[1:], e + e]
+        k = 0
+        for c in cands:
+            if c and c not in taken and c not in out and len(c) < 120 and "/" not in c and "\x00" not in c:
+                out.append(c)
+                k += 1
+                if k >= 4:
+                    break
+    return out
+
+
+def _clutter_payload(tag):
+    return {"version_etag": "clutter", "turn": 99, "clutter": tag, "store": {"state": {"clutter": tag}},
+            "gel": {"nodes": {"clutter": {"id": "clutter", "label": tag}}, "edges": {},
+                    "meta": {"schema": "v1.1", "merges": [], "splits": [], "promotions": [], "concept_nodes_count": 0,
+                             "edges_count": 0}}}
+
+
+def _full_text(etag, payload):
+    return (json.dumps({"schema": "snapshot:v1", "mode": "full", "etag_to": etag, "codec": "none", "level": 0},
+                       sort_keys=True, separators=(",", ":")) + "\n" + json.dumps(payload, sort_keys=True)).encode("utf-8")
+
+
 def _check_disk_codec(case, codec, rec):
+    import pathlib
     from clematis.engine.snapshot import write_snapshot_auto, read_snapshot
     from clematis.engine.util.snapshot_delta import compute_delta, apply_delta
     import clematis.io.snapshot as io_snapshot
@@ -977,6 +1281,16 @@ def _check_disk_codec(case, codec, rec):
     p0, p1 = case["p0"], case["p1"]
     scen = case["scenario"]
     ea, eb = case["etags"]
+    big = int(case.get("big") or 0)
+    if big and scen != "corrupt":
+        # (kept out of the replay file: rebuilt from the size)  a long string value and many small records
+        bulk = {"blob": "x" * big, "rows": {f"r{i}": {"i": i, "w": i / 7} for i in range(min(300, big // 400))}}
+        p0 = dict(p0, bulk=bulk) if p0 else p0
+        p1 = dict(p1, bulk=dict(bulk, blob=bulk["blob"][:-1] + "y", rows=dict(bulk["rows"], r0={"i": 0, "w": 0}))) if p1 else p1
+    clutter = list(case.get("clutter") or [])
+    shape = int(case.get("shape") or 0)
+    rounds = int(case.get("rounds") or 1)
+    PL = pathlib.Path if case.get("pathlike") else (lambda x: x)  # str or os.PathLike arguments
     c1 = canon(p1)
     cp0, cp1 = canon(p0), c1
     try:  # pristine JSON texts of both payloads (what the files hold), for the raw on-disk delta comparison
@@ -984,7 +1298,21 @@ def _check_disk_codec(case, codec, rec):
     except Exception:
         cp0_json = cp1_json = None
     evals = 0
-    labels = [f"scenario:{scen}", f"codec:{codec}"]
+    labels = [f"scenario:{scen}", f"codec:{codec}", f"load-shape:{shape}"]
+    labels.append("args:pathlike" if case.get("pathlike") else "args:str")
+    if big and scen != "corrupt":
+        labels.append("payload:>64KiB" if big < 1_000_000 else "payload:>1MiB")
+    for e in (ea, eb):
+        if any(ch in e for ch in "*?["):
+            labels.append("etag:glob-meta")
+        if not e.isascii():
+            labels.append("etag:nonascii")
+        if ".full" in e or ".delta" in e or ".json" in e or ".meta" in e:
+            labels.append("etag:spells-file-part")
+    if ea.startswith(eb) or eb.startswith(ea):
+        labels.append("etag:one-prefix-of-other")
+    if ea.isdigit() and eb.isdigit() and (int(ea) < int(eb)) != (ea < eb):
+        labels.append("etag:numeric-vs-lexicographic")
 
     # what the in-memory codec makes of (p0, p1): disk deviations that merely mirror a *listed* codec finding are
     # attributed to it, everything else is a disk-layer violation
@@ -1014,16 +1342,69 @@ def _check_disk_codec(case, codec, rec):
     os.environ["CLEMATIS_SNAPSHOT_DIR"] = os.path.join(root, "default")
     try:
         snap = os.path.join(root, "snap")
+        os.makedirs(snap)
         ref_dir = _write_full_dir(p1, eb, codec, os.path.join(root, "ref"))
-        ref_obs = observe_load(ref_dir)
+        ref_obs = observe_load(ref_dir, shape)
         ref_key = _obs_key(ref_obs)
-        empty_key = _obs_key(observe_load(_write_full_dir({}, eb, codec, os.path.join(root, "ref_empty"))))
+        empty_key = _obs_key(observe_load(_write_full_dir({}, eb, codec, os.path.join(root, "ref_empty")), shape))
         cres_key = None
         if codec_result is not None and type(codec_result) is dict:
-            cres_key = _obs_key(observe_load(_write_full_dir(codec_result, eb, codec, os.path.join(root, "ref_codec"))))
+            cres_key = _obs_key(observe_load(_write_full_dir(codec_result, eb, codec, os.path.join(root, "ref_codec")), shape))
         ccres = try_canon(codec_result) if codec_result is not None else None
         full_name = f"snapshot-{ea}.full{_ext(codec)}"
         delta_name = f"snapshot-{eb}.delta{_ext(codec)}"
+        ec, ed = ea + "~" + eb, eb + "~" + ea  # further etags (chain / writer_only_delta), distinct from ea, eb
+        taken = {ea, eb, ec, ed, ea + "x"}
+
+        def W(etag_from, etag_to, payload, delta_mode, d=None):
+            return write_snapshot_auto(PL(snap if d is None else d), etag_from=etag_from, etag_to=etag_to, payload=payload,
+                                       compression=codec, delta_mode=delta_mode)
+
+        # ------------------------------------------------------------------ directory clutter (before any real write:
+        # writer and readers both face it).  None of it is a snapshot of ea / eb / ec / ed, so none of it may matter.
+        if "near-etags" in clutter:
+            first = None
+            for i, d in enumerate(_near_etags(ea, eb, taken)):
+                # (written by hand, byte-compatible with the writer's format: a dozen fsync'ed atomic writes per case is slow)
+                with open(os.path.join(snap, f"snapshot-{d}.full{_ext(codec)}"), "wb") as f:
+                    f.write(_full_text(d, _clutter_payload(d)))
+                first = first or d
+                if i % 2:
+                    with open(os.path.join(snap, f"snapshot-{d}.delta{_ext(codec)}"), "wb") as f:
+                        f.write((json.dumps({"schema": "snapshot:v1", "mode": "delta", "etag_from": first, "delta_of": first,
+                                             "etag_to": d, "codec": "none", "level": 0}, sort_keys=True, separators=(",", ":"))
+                                 + "\n" + json.dumps({"_adds": {"clutter2": d}, "_mods": {}, "_dels": []})).encode("utf-8"))
+            labels.append("clutter:near-etags")
+        if "strays" in clutter:
+            other = _full_text("stray", _clutter_payload("stray"))
+            for stem in (f"snapshot-{ea}.full", f"snapshot-{eb}.delta", f"snapshot-{eb}.full", f"snapshot-{ec}.full"):
+                for name, blob in ((stem + _ext(codec) + ".k3j2h1ab", other),   # left by an interrupted atomic write
+                                   (stem + _ext(codec) + ".bak", other), (stem + _ext(codec) + "~", other[:len(other) // 2]),
+                                   ("." + stem + _ext(codec) + ".swp", b"\x00b0VIM"), (stem + ".jsonl", other),
+                                   (stem + ".json5", other), (stem + ".txt", other),
+                                   # left from a time when compression was switched on: a sibling under the OTHER codec's
+                                   # name with different (older) content; the file just written for the etag is the snapshot
+                                   (stem + (".json.zst" if codec == "none" else ".json"), other)):
+                    if name.endswith((".json", ".json.zst")) and stem != f"snapshot-{ea}.full":
+                        continue  # (only next to the baseline: for eb it would be a second, contradicting snapshot of eb)
+                    if len(name.encode("utf-8")) < 250:
+                        with open(os.path.join(snap, name), "wb") as f:
+                            f.write(blob)
+            labels.append("clutter:strays")
+        if "orphan-sidecars" in clutter:
+            side = b'{"created_at": "1980-01-01T00:00:00Z", "schema_version": "v1"}\n'
+            for name in (f"snapshot-{eb}.full{_ext(codec)}.meta", f"snapshot-{ea}.delta{_ext(codec)}.meta",
+                         f"snapshot-{ea}0.full{_ext(codec)}.meta", f"snapshot-{ec}.delta{_ext(codec)}.meta"):
+                if len(name.encode("utf-8")) < 250:
+                    with open(os.path.join(snap, name), "wb") as f:
+                        f.write(side)
+            labels.append("clutter:orphan-sidecars")
+
+        def drop_sidecars():
+            if "no-sidecars" in clutter:  # bodies without sidecars: the sidecar is for inspectors, readers never need it
+                for fn in os.listdir(snap):
+                    if fn.endswith(".meta") and os.path.isfile(os.path.join(snap, fn[:-5])):
+                        os.unlink(os.path.join(snap, fn))
 
         def same_p1(got, who, strict):
             """got must be P1 (strict) or one of {P1, {}} (not strict). Returns after raising/excusing."""
@@ -1045,12 +1426,14 @@ def _check_disk_codec(case, codec, rec):
         def load_ok(who, strict):
             """load_latest_snapshot on `snap`: state must equal the reference (strict) or report absence."""
             try:
-                obs = observe_load(snap)
+                obs = observe_load(PL(snap), shape)
             except Exception as e:
                 if strict:
                     viol(f"load_latest_snapshot raised {type(e).__name__}: {e}", "load-raises", {"reader": who})
                 return "raised"
             k = _obs_key(obs)
+            for part in ("graph", "gel", "imported"):  # the state built belongs to the caller: editing it must not
+                _poison(obs.get(part))                 # reach what later reads see
             if k == ref_key:
                 return "p1"
             if not strict and obs["loaded"] is False:
@@ -1076,10 +1459,12 @@ def _check_disk_codec(case, codec, rec):
             viol(f"load_latest_snapshot builds a wrong state: {k[:500]} but a full snapshot of P1 gives {ref_key[:500]}",
                  "load-wrong-state" if strict else "load-wrong-reconstruction", {"reader": who})
 
-        def readers(strict, target_path, note, on_viol=None):
-            """Run the four readers; on_viol(v) returns (outcome label) only when the failure is a listed finding."""
+        def readers(strict, target_path, note, on_viol=None, bdir=None, do_load=True, order=0):
+            """Run the readers of etag eb; on_viol(v) returns (outcome label) only when the failure is a listed finding.
+            bdir: the directory holding the baseline when it is not the snapshot directory (baseline_dir= argument)."""
             nonlocal evals
             outs = []
+            drop_sidecars()
 
             def guarded(fn):
                 try:
@@ -1089,11 +1474,26 @@ def _check_disk_codec(case, codec, rec):
                         raise
                     return on_viol(v)
 
-            for who, fn in (("read_snapshot(path=)", lambda: read_snapshot(path=target_path)),
-                            ("read_snapshot(root, etag_to=)", lambda: read_snapshot(snap, etag_to=eb)),
-                            ("io.read_snapshot(root=, etag_to=, baseline_dir=)",
-                             lambda: io_snapshot.read_snapshot(root=snap, etag_to=eb, baseline_dir=snap))):
+            if bdir is None:
+                plan = [("read_snapshot(path=)", lambda: read_snapshot(path=PL(target_path))),
+                        ("read_snapshot(root, etag_to=)", lambda: read_snapshot(PL(snap), etag_to=eb)),
+                        ("io.read_snapshot(root=, etag_to=, baseline_dir=)",
+                         lambda: io_snapshot.read_snapshot(root=PL(snap), etag_to=eb, baseline_dir=PL(snap)))]
+            else:
+                plan = [("read_snapshot(path=, baseline_dir=)", lambda: read_snapshot(path=PL(target_path), baseline_dir=PL(bdir))),
+                        ("read_snapshot(root, etag_to=, baseline_dir=)",
+                         lambda: read_snapshot(PL(snap), etag_to=eb, baseline_dir=PL(bdir))),
+                        ("io.read_snapshot(root=, etag_to=, baseline_dir=)",
+                         lambda: io_snapshot.read_snapshot(root=PL(snap), etag_to=eb, baseline_dir=PL(bdir)))]
+            if do_load:
+                plan.append(("load_latest_snapshot", None))
+            if order:
+                plan.reverse()
+            for who, fn in plan:
                 evals += 1
+                if fn is None:
+                    outs.append(guarded(lambda: load_ok("load_latest_snapshot", strict)))
+                    continue
                 try:
                     got = fn()
                 except Exception as e:
@@ -1103,19 +1503,46 @@ def _check_disk_codec(case, codec, rec):
                     continue
                 outs.append(guarded(lambda: same_p1(got, who, strict)))
                 _poison(got)  # the next reader must not see the caller's edits
-            evals += 1
-            outs.append(guarded(lambda: load_ok("load_latest_snapshot", strict)))
             for o in outs:
                 labels.append(f"{note}:{o}")
             return outs
 
+        def exact(got, want_canon, who, sig):
+            cg = try_canon(got)
+            if cg != want_canon:
+                viol(f"{who} returns {cg[:300]} instead of the payload written, {want_canon[:300]}", sig, {"reader": who})
+
+        if case.get("probe_first"):
+            # every lookup is made once BEFORE anything real is written (nothing there yet: whatever comes back is not
+            # judged); a reader or writer that remembers "not found" must not serve that answer after the write
+            labels.append("probed-before-written")
+            for e in (ea, eb):
+                for fn in (lambda: read_snapshot(PL(snap), etag_to=e),
+                           lambda: io_snapshot.read_snapshot(root=PL(snap), etag_to=e, baseline_dir=PL(snap)),
+                           lambda: read_snapshot(path=PL(os.path.join(snap, f"snapshot-{e}.delta{_ext(codec)}"))),
+                           lambda: read_snapshot(path=PL(os.path.join(snap, f"snapshot-{e}.full{_ext(codec)}")))):
+                    try:
+                        fn()
+                    except Exception:
+                        pass
+            try:
+                observe_load(PL(snap), shape)
+            except Exception:
+                pass
+
         # ------------------------------------------------------------------ scenarios
         wrote_delta = False
-        if scen in ("writer_missing", "writer_mismatch"):
+        if scen in ("writer_missing", "writer_mismatch", "writer_only_delta"):
             if scen == "writer_mismatch":  # a full exists, but for another etag than etag_from
-                write_snapshot_auto(snap, etag_from=None, etag_to=ea + "x", payload=p0, compression=codec, delta_mode=False)
+                W(None, ea + "x", p0, False)
+            elif scen == "writer_only_delta":  # etag_from exists, but only as a DELTA (of ec): a patch is not a baseline
+                W(None, ec, p0, False)
+                _pth, wd_ = W(ec, ea, p0, True)
+                labels.append("etag_from-is-a-delta" if wd_ else "etag_from-is-a-full")
+                if not wd_:  # the writer chose a full for ea after all: then ea IS a baseline; not this scenario
+                    os.unlink(_pth)
             try:
-                path, wd = write_snapshot_auto(snap, etag_from=ea, etag_to=eb, payload=p1, compression=codec, delta_mode=True)
+                path, wd = W(ea, eb, p1, True)
             except Exception:
                 labels.append("writer:raised")
                 path, wd = None, None
@@ -1125,44 +1552,130 @@ def _check_disk_codec(case, codec, rec):
                          "writer-delta-without-baseline")
                 _set_mtimes(snap, path)
                 readers(True, path, "full")
+        elif scen == "chain":
+            p2, p3 = case.get("p2", p1), case.get("p3", p0)
+            written = []
+            fp, wd0 = W(None, ea, p0, False)
+            written.append((ea, p0, fp))
+            dp, wrote_delta = W(ea, eb, p1, True)
+            written.append((eb, p1, dp))
+            if case.get("chain_sibling"):
+                W(None, eb, p1, False)  # eb also has a full: a legitimate baseline for the next step
+                labels.append("chain:eb-has-full")
+            p2path, wd2 = W(eb, ec, p2, True)      # etag_from = eb, which (without the sibling) exists only as a delta
+            if wd2 and not case.get("chain_sibling"):
+                viol(f"etag_from={eb!r} exists only as a delta (no full snapshot), yet the writer returned "
+                     f"({os.path.basename(p2path)}, {wd2})", "writer-delta-without-baseline")
+            written.append((ec, p2, p2path))
+            p3path, wd3 = W(ea, ed, p3, True)      # a second delta off the same baseline
+            written.append((ed, p3, p3path))
+            labels.append(f"chain:{'d' if wrote_delta else 'f'}{'d' if wd2 else 'f'}{'d' if wd3 else 'f'}")
+            drop_sidecars()
+            for rnd in range(rounds):
+                for etag, pl, pth in (written if rnd == 0 else written[::-1]):
+                    cw = canon(pl)
+                    for who, fn in (("read_snapshot(path=)", lambda: read_snapshot(path=PL(pth))),
+                                    ("read_snapshot(root, etag_to=)", lambda: read_snapshot(PL(snap), etag_to=etag))):
+                        evals += 1
+                        try:
+                            got = fn()
+                        except Exception as e:
+                            viol(f"{who} of etag {etag!r} raised {type(e).__name__}: {e}", "read-raises", {"reader": who})
+                        exact(got, cw, f"{who} of etag {etag!r}", "disk-wrong-payload")
+                        _poison(got)
+            for etag, pl, pth in written[1:]:
+                if not pth.endswith(".json"):
+                    continue
+                evals += 1
+                _set_mtimes(snap, pth)
+                want = _obs_key(observe_load(_write_full_dir(pl, etag, codec, os.path.join(root, "ref_" + str(len(os.listdir(root))))), shape))
+                try:
+                    obs = observe_load(PL(snap), shape)
+                except Exception as e:
+                    viol(f"load_latest_snapshot raised {type(e).__name__}: {e}", "load-raises")
+                if _obs_key(obs) != want:
+                    viol(f"load_latest_snapshot (newest file: etag {etag!r}) builds a wrong state: {_obs_key(obs)[:400]} but a full "
+                         f"snapshot of that payload gives {want[:400]}", "load-wrong-state")
+                _poison(obs.get("graph"))
         else:
-            fpath, wd0 = write_snapshot_auto(snap, etag_from=None, etag_to=ea, payload=p0, compression=codec, delta_mode=False)
+            px = case.get("pre")
+            if px is not None and scen in PRESENT_LIKE:
+                # the same two file names held other content before and were read in this process: files are replaced in
+                # place (same etag written again), and what was read earlier must not survive the replacement
+                labels.append("files-rewritten-in-place")
+                W(None, ea, px, False)
+                exact(read_snapshot(PL(snap), etag_to=ea), canon(px), "read_snapshot(root, etag_to=) of the full snapshot", "full-readback")
+                dpx, wdx = W(ea, eb, p0, True)
+                if not diagnose(px, p0):
+                    exact(read_snapshot(path=PL(dpx)), cp0, "read_snapshot(path=) of the earlier delta", "disk-wrong-payload")
+                    exact(read_snapshot(PL(snap), etag_to=eb), cp0, "read_snapshot(root, etag_to=) of the earlier delta", "disk-wrong-payload")
+                try:
+                    _poison(observe_load(PL(snap), shape))
+                except Exception:
+                    pass
+            fpath, wd0 = W(None, ea, p0, False)
             if wd0 or os.path.basename(fpath) != full_name:
                 viol(f"full write returned ({os.path.basename(fpath)}, {wd0})", "writer-full-shape")
             if canon(p0) != cp0:
                 viol("write_snapshot_auto mutated the payload", "mutates-input")
             if len(case["blobs"]) % 2 == 0:
                 # the usual incremental flow: read the baseline back, edit the returned object in place, then write a delta
+                how = (len(case["blobs"]) // 2 + shape) % 3
                 try:
-                    a_back = read_snapshot(snap, etag_to=ea)
+                    if how == 0:
+                        a_back = read_snapshot(PL(snap), etag_to=ea)
+                    elif how == 1:
+                        a_back = read_snapshot(path=PL(fpath))
+                    else:
+                        a_back = io_snapshot.read_snapshot(root=PL(snap), etag_to=ea, baseline_dir=PL(snap))
                 except Exception as e:
-                    viol(f"read_snapshot(root, etag_to=) of a freshly written full snapshot raised {type(e).__name__}: {e}", "read-raises")
+                    viol(f"reading a freshly written full snapshot raised {type(e).__name__}: {e}", "read-raises")
                 if canon(a_back) != cp0:
                     viol(f"full snapshot read back as {canon(a_back)[:300]} instead of P0", "full-readback")
                 _poison(a_back)
+                try:
+                    _poison(observe_load(PL(snap), shape))  # the boot loader's state may alias the parsed payload, too
+                except Exception:
+                    pass
                 labels.append("baseline-read-then-edited")
-            dpath, wrote_delta = write_snapshot_auto(snap, etag_from=ea, etag_to=eb, payload=p1, compression=codec, delta_mode=True)
+            dpath, wrote_delta = W(ea, eb, p1, True)
             if canon(p1) != cp1:
                 viol("write_snapshot_auto mutated the payload", "mutates-input")
             labels.append("wrote_delta" if wrote_delta else "writer-fell-back-to-full")
             if wrote_delta and codec == "none":
                 # what is ON DISK must be the delta from the baseline file's content to P1 (raw parse, no reader involved)
-                from clematis.engine.util.snapshot_delta import compute_delta
                 with open(dpath, "rb") as f:
-                    lines = f.read().split(b"\n")
-                disk_delta = json.loads(lines[1].decode("utf-8")) if len(lines) > 1 and lines[1].strip() else None
+                    lines = f.read().split(b"\n", 1)
+                try:
+                    disk_delta = json.loads(lines[1].decode("utf-8")) if len(lines) > 1 and lines[1].strip() else None
+                except ValueError as e:
+                    viol(f"the delta file's body is not JSON ({e}): {lines[1][:200]!r}", "disk-delta-wrong")
                 want_delta = compute_delta(json.loads(cp0_json), json.loads(cp1_json)) if cp0_json is not None else None
                 if want_delta is not None and canon(disk_delta) != canon(want_delta):
                     viol(f"delta body on disk {canon(disk_delta)[:300]} is not the delta from the baseline file's payload to P1 "
                          f"{canon(want_delta)[:300]}", "disk-delta-wrong")
             if wrote_delta and os.path.basename(dpath) != delta_name:
                 viol(f"delta written under {os.path.basename(dpath)}", "writer-delta-name")
-            if scen == "present":
+            if scen in ("present", "present_sibling"):
+                if scen == "present_sibling":
+                    W(None, eb, p1, False)  # etag eb exists as a delta AND as a full of the same payload
+                for rnd in range(rounds):
+                    _set_mtimes(snap, dpath)
+                    readers(True, dpath, "present" if rnd == 0 else "present-again", order=rnd)
+            elif scen == "present_bdir":
+                # the baseline is kept in another directory, handed to the readers as baseline_dir=
+                bdir = os.path.join(root, "base dir")
+                os.makedirs(bdir)
+                shutil.move(fpath, os.path.join(bdir, os.path.basename(fpath)))
+                if os.path.exists(fpath + ".meta"):
+                    shutil.move(fpath + ".meta", os.path.join(bdir, os.path.basename(fpath) + ".meta"))
                 _set_mtimes(snap, dpath)
-                readers(True, dpath, "present")
+                for rnd in range(rounds):
+                    readers(True, dpath, "bdir", bdir=bdir, do_load=False, order=rnd)
+                readers(False, dpath, "bdir-not-given")  # without the argument the baseline is simply missing
             elif scen in ("reader_missing", "reader_missing_sibling", "reader_missing_sibling_gone"):
                 if scen != "reader_missing":
-                    spath, _ = write_snapshot_auto(snap, etag_from=None, etag_to=eb, payload=p1, compression=codec, delta_mode=False)
+                    spath, _ = W(None, eb, p1, False)
                     if scen == "reader_missing_sibling_gone":
                         # the sibling full snapshot's BODY was cleaned up again; whatever sidecar it had stays behind
                         os.unlink(spath)
@@ -1175,7 +1688,7 @@ def _check_disk_codec(case, codec, rec):
                 # the removed full snapshot itself: absence ({}) or an error, never an object that was not written as a state
                 evals += 1
                 try:
-                    gone = read_snapshot(snap, etag_to=ea)
+                    gone = read_snapshot(PL(snap), etag_to=ea)
                 except Exception:
                     labels.append("removed-full:raised")
                 else:
@@ -1188,12 +1701,15 @@ def _check_disk_codec(case, codec, rec):
             elif scen == "corrupt":
                 with open(fpath, "rb") as f:
                     raw = f.read()
+                with open(dpath, "rb") as f:
+                    draw_ = f.read()
                 only = case.get("only")
                 if only is not None:
                     plan = [only]
                 else:
                     plan = [{"kind": "truncate", "offset": o} for o in structural_offsets(raw)]
                     plan += [{"kind": "blob", "hex": h} for h in case["blobs"]]
+                    plan += [{"kind": "delta-copy"}]  # the baseline's name holds a copy of the DELTA file (a patch, not a state)
                 nl = raw.find(b"\n")
                 for cor in plan:
                     if cor["kind"] == "truncate":
@@ -1204,6 +1720,11 @@ def _check_disk_codec(case, codec, rec):
                         where = ("empty" if off == 0 else "mid-header" if off < nl else "after-header" if off in (nl, nl + 1)
                                  else "mid-body")
                         labels.append("truncate:" + where)
+                    elif cor["kind"] == "delta-copy":
+                        if not wrote_delta or cp0 == "{}":
+                            continue
+                        blob = draw_
+                        labels.append("baseline-is-a-delta-file")
                     else:
                         blob = bytes.fromhex(cor["hex"])
                         if blob == raw:
@@ -1232,13 +1753,13 @@ def _check_disk_codec(case, codec, rec):
                     os.makedirs(w2)
                     shutil.copy(fpath, os.path.join(w2, full_name))
                     try:
-                        p2, wd2 = write_snapshot_auto(w2, etag_from=ea, etag_to=eb, payload=p1, compression=codec, delta_mode=True)
+                        p2, wd2 = W(ea, eb, p1, True, d=w2)
                     except Exception:
                         labels.append("writer-on-corrupt:raised")
                     else:
                         labels.append("writer-on-corrupt:" + ("delta" if wd2 else "full"))
                         try:
-                            got = read_snapshot(path=p2)
+                            got = read_snapshot(path=PL(p2))
                         except Exception:
                             if not wd2:
                                 viol("the full snapshot written as fallback cannot be read", "writer-fallback-wrong", {"only": cor})
@@ -1255,7 +1776,7 @@ def _check_disk_codec(case, codec, rec):
             pl, _ = pair_labels(p0, p1)
             rec.case(nontrivial=nt, dig=digest([case, codec]) if nt else None, labels=labels + ["delta:" + x for x in pl],
                      n=max(1, evals),
-                     sample={"scenario": scen, "p0": p0, "p1": p1} if nt and scen != "present" else None)
+                     sample={"scenario": scen, "p0": case["p0"], "p1": case["p1"]} if nt and scen != "present" else None)
         return evals
     finally:
         if old_env is None:
